@@ -1276,6 +1276,10 @@ class RTCPeerConnection(AsyncIOEventEmitter):
         return receiveParameters
 
     def __setSignalingState(self, state: str) -> None:
+        # once closed, always closed: a negotiation call which was in
+        # progress when close() was called must not revive the state
+        if self.__signalingState == "closed":
+            return
         self.__signalingState = state
         self.emit("signalingstatechange")
 
